@@ -17,6 +17,9 @@ CHECKS = {
  "C10": ("geosim", "exploration", "partial claim: every volume the library computes during simulated sampling and the root volume against closed forms/composition rules; density->count exactly for closed-form primitives, in expectation (pooled z-test) for rejection-based shapes; set_volume/flag histories", TECH + "volume monitor on simulated density sampling + count oracles over owned draw streams"),
  "C07": ("trainsim", "exploration", "refinement of Lightning-driven training (real Solver under a real Trainer, trainer options = the schedule) against the reference loop R-loop over training histories: per-step learnable state, lr, draw counts, call schedule, validation purity", TECH + "two-world refinement check under an owned RNG; the simulator chooses Lightning's validation/sanity/logging schedule"),
  "C19": ("trainsim", "fault_enumeration", "per configuration every single crash point (step x hook) is enumerated: crash, only files survive, rebuild from scratch with another init seed, resume to N, bitwise comparison with the uninterrupted run; plus multi-crash schedules and weight-file load/identity checks", TECH + "crash-point enumeration with restart from durable state only, bitwise refinement against the uninterrupted run"),
+ "C04": ("condsim", "exploration", "histories of evaluations of a condition whose sampler is wrapped by a recording proxy and whose residual is a probe: arguments by name at exactly the sampled rows of this evaluation, analytic derivatives, documented reduction; evaluation counts straddle the static resample interval", TECH + "recording-proxy seam on sampler draws + probe residual + closed-form model; R-reduce reference"),
+ "C09": ("deeponetsim", "exploration", "histories of fix/forward operations on a DeepONet (state = cached branch features) judged after every forward by the explicit inner product of independently computed features of the most recently fixed functions, batch-order invariance and the plain-network twin (outputs, 1st/2nd input derivatives, parameter gradients)", TECH + "operation histories over cached state against the R-twin reference model (no draw/fault applies once samplers are static grids: stated)"),
+ "C14": ("condsim", "exploration", "schedules of construct/evaluate events over conditions sharing user objects, every operation replayed in a solo world built from the same recipe under the same per-operation draw stream; user containers compared by object identity; repeatability of static conditions", TECH + "two-world isolation check over interleaved construct/evaluate schedules with reseeded draw streams"),
  "C13": ("objsim", "exploration", "degenerate use (no draws, no faults): interleaved operation histories over several holders of possibly shared state (wrapper, re-wrap, partial evaluations, deep copies) judged against the R-holders reference model; isolation and name-based routing", TECH + "operation histories over shared-state holders against a reference model (history half of the technique only; no fault applies)"),
  "C16": ("loadersim", "exploration", "one pass over a loader as a history of batches under simulator-chosen shuffle permutations; unique tags make every row attributable: pairing, batch size, coverage, full-data-set aggregation", TECH + "owned shuffle permutations (identity/reverse/rotate/swap faults) + tagged-data conservation/pairing oracle"),
  "C15": ("samplersim", "exploration", "seeded call histories on static samplers (any interleaving of sample/next/len/re-make_static) judged by the R-static age-set model with freshness observed at the seam; adaptive samplers with generated loss vectors judged row by row against R-adaptive using the fresh draw and the uniform numbers observed at the seam", TECH + "call histories under an owned RNG, state-machine reference models"),
@@ -25,6 +28,8 @@ CHECKS = {
 ENG = {
  "geosim": ("simverif/geosim.py", "seeded simulation of sampling under an owned draw stream (SimRNG) with value faults and spurious rejections; monitors on membership/volume/box; float64 reference geometry R-geo as oracle"),
  "trainsim": ("simverif/trainsim.py", "real Solver + real pl.Trainer as world A with simulator-chosen trainer options, crash callbacks and private tmpfs directory; R-loop reference optimisation loop as world B"),
+ "condsim": ("simverif/condsim.py", "conditions with recording sampler proxies, probe residuals and closed-form models; shared world vs solo worlds"),
+ "deeponetsim": ("simverif/deeponetsim.py", "fix/forward histories on DeepONets with a plain twin network"),
  "objsim": ("simverif/objsim.py", "interleaved operations on holders of shared UserFunction state; R-holders model"),
  "loadersim": ("simverif/loadersim.py", "tagged data sets, one epoch as a batch history, simulator-owned shuffle permutations"),
  "samplersim": ("simverif/samplersim.py", "operation histories on sampler expressions / static / adaptive samplers with recording proxies; R-count, R-static, R-adaptive reference models"),
